@@ -478,7 +478,17 @@ fn property_of_request(req: &str) -> Option<String> {
             let t = impl_tables();
             let tok = t.split(' ').next().unwrap_or("");
             let want: String = (0u32..256).map(|c| if is_tchar(char::from_u32(c).unwrap()) { '1' } else { '0' }).collect();
-            if tok != want { Some(format!("token set accepted for type: {} (RFC 7230 tchar: {})", tok, want)) } else { None }
+            match tok.chars().zip(want.chars()).position(|(a, b)| a != b) {
+                Some(i) => Some(format!(
+                    "token set: the one-character type U+{:04X} in {:?} is {} but RFC 7230 tchar says {}",
+                    i,
+                    format!("{}/x", char::from_u32(i as u32).unwrap()),
+                    if tok.as_bytes()[i] == b'1' { "accepted" } else { "rejected" },
+                    if want.as_bytes()[i] == b'1' { "token" } else { "not a token" }
+                )),
+                None if tok.len() != want.len() => Some("token set: PANIC or short answer".into()),
+                None => None,
+            }
         }
         _ => None,
     }
@@ -536,6 +546,19 @@ fn run_known(_args: &Args) -> Report {
         Err(_) => false,
     };
     rep.known.push(("F-C19-1".into(), dup, format!("\"text/plain;A=1;A=2\".parse::<Mime>() parameters: {}", r)));
+    // F-C19-2 (deviation from the MIME Sniffing Standard, relevant to C17; not a clause of C19):
+    // valid_value is applied to the raw first ';'-piece of a quoted value
+    let show = |s: &str| match s.parse::<Mime>() {
+        Ok(m) => format!("{:?}", m.parameters),
+        Err(_) => "parse error".to_string(),
+    };
+    let keeps_ctl = "a/b;x=\"a;\u{1}\"".parse::<Mime>().map_or(false, |m| m.get_parameter("x") == Some("a;\u{1}"));
+    let drops_x = "a/b;x=\"a\"\u{1}".parse::<Mime>().map_or(false, |m| m.get_parameter("x").is_none());
+    rep.known.push((
+        "F-C19-2".into(),
+        keeps_ctl || drops_x,
+        format!("a/b;x=\"a;<U+0001>\" -> {}; a/b;x=\"a\"<U+0001> -> {}", show("a/b;x=\"a;\u{1}\""), show("a/b;x=\"a\"\u{1}")),
+    ));
     rep
 }
 
